@@ -148,6 +148,14 @@ class GetNextObject(Contract):
     def pre(self, S, env):
         return container_wf(env["self"])
 
+    def result(self, S, env):
+        # for callers: two result shapes (found / not found); the executor forks on a fresh boolean
+        from pyvc.engine import _view
+        if S.ex.decide(S.bool("found")):
+            idx = S.int("found.index")
+            return Seq("tuple", [True, idx, _view(env["self"].fields["refinementObjects"], idx)])
+        return Seq("tuple", [False, None, None])
+
     @staticmethod
     def end_of(c):
         f = c.fields
@@ -274,3 +282,96 @@ class UpdateCoarseningValues(Contract):
 
 
 CONTRACTS += [UpdateCoarseningValues()]
+
+
+# --------------------------------------------------------------------------- MetaRefinementContainer: lexicographic cursor over the dimensions
+class MetaGetNextObject(Contract):
+    """selection over all dimensions (fixed number of dimensions, any container sizes): the next selected interval is the first one in
+    lexicographic (dimension, position) order at/after the cursor whose benefit reaches the tolerance; nothing is skipped"""
+    file, qualname = RC_FILE, "MetaRefinementContainer.get_next_object_for_refinement"
+
+    def __init__(self, ndim):
+        self.ndim = ndim
+        self.label = "MetaRefinementContainer.get_next_object_for_refinement[dims=%d]" % ndim
+
+    def inputs(self, S):
+        conts = []
+        for c in range(self.ndim):
+            n = S.int("n%d" % c)
+            S.assume(n >= 0)
+            objs = ObjSeq("RefinementObjectSingleDimension", n, dict(benefit=S.array("benefit%d" % c, I, R), error=S.array("error%d" % c, I, R),
+                                                                     evaluations=S.array("evaluations%d" % c, I, I), coarsening_level=S.array("coarsening%d" % c, I, I)))
+            conts.append(Obj("RefinementContainer", dict(refinementObjects=objs, dim=1, startNewObjects=S.int("startNewObjects%d" % c),
+                                                         searchPosition=S.int("searchPosition%d" % c))))
+        return {"self": Obj("MetaRefinementContainer", dict(refinementContainers=Seq("list", conts), curContainer=S.int("curContainer"))), "tolerance": S.real("tolerance")}
+
+    def pre(self, S, env):
+        f = env["self"].fields
+        out = [("cursor-in-range", z3.And(f["curContainer"] >= 0, f["curContainer"] <= self.ndim))]
+        for c, cont in enumerate(f["refinementContainers"].items):
+            out += [("c%d.%s" % (c, n), e) for n, e in container_wf(cont)]
+        return out
+
+    @staticmethod
+    def none_from_cursor(cont_old, tol):
+        f = cont_old.fields
+        j = z3.Int("mj")
+        end = GetNextObject.end_of(cont_old)
+        return z3.ForAll([j], z3.Implies(z3.And(j >= f["searchPosition"], j < end), z3.Select(f["refinementObjects"].fields["benefit"], j) < tol))
+
+    def inv(self, S, env, g):
+        so = S.ex.old["self"].fields
+        f = env["self"].fields
+        cur0, cur = so["curContainer"], f["curContainer"]
+        tol = env["tolerance"]
+        out = [("cursor", z3.And(cur >= cur0, cur < self.ndim)), ("not-found-yet", (env["foundObj"] is False) if isinstance(env["foundObj"], bool) else z3.Not(env["foundObj"])), ("tolerance-unchanged", tol == S.ex.old["tolerance"])]
+        for c in range(self.ndim):
+            co, cn = so["refinementContainers"].items[c], f["refinementContainers"].items[c]
+            out.append(("skipped-dimension-%d-has-no-candidate" % c, z3.Implies(z3.And(cur0 <= c, c < cur), self.none_from_cursor(co, tol))))
+            out.append(("dimension-%d-untouched" % c, z3.And(cn.fields["searchPosition"] == co.fields["searchPosition"],
+                                                           cn.fields["startNewObjects"] == co.fields["startNewObjects"],
+                                                           cn.fields["refinementObjects"].fields["benefit"] == co.fields["refinementObjects"].fields["benefit"])))
+        return out
+
+    @property
+    def loops(self):
+        return {0: Loop(inv=lambda S, env, g: self.inv(S, env, g))}
+
+    def post(self, S, old, env, result):
+        so, f = old["self"].fields, env["self"].fields
+        tol = old["tolerance"]
+        cur0 = so["curContainer"]
+        ok = isinstance(result, Seq) and result.concrete and len(result.items) == 3
+        if not ok:
+            return [Cl("returns-triple", False, prop=True)]
+        found, pos, obj = result.items
+        out = [Cl("returns-triple", True, prop=True)]
+        if found is True:
+            okpos = isinstance(pos, Seq) and pos.concrete and len(pos.items) == 2
+            if not okpos:
+                return [Cl("position-is-a-pair", False, prop=True)]
+            cpos, ipos = pos.items
+            cpos_z = V(cpos)
+            sel = []
+            for c in range(self.ndim):
+                co = so["refinementContainers"].items[c]
+                cn = f["refinementContainers"].items[c]
+                ben = co.fields["refinementObjects"].fields["benefit"]
+                j = z3.Int("pj")
+                sel.append(z3.Implies(cpos_z == c, z3.And(
+                    z3.Select(ben, ipos) >= tol, ipos >= co.fields["searchPosition"], ipos < GetNextObject.end_of(co),
+                    z3.ForAll([j], z3.Implies(z3.And(j >= co.fields["searchPosition"], j < ipos), z3.Select(ben, j) < tol)),
+                    cn.fields["searchPosition"] == ipos + 1)))
+                sel.append(z3.Implies(z3.And(cur0 <= c, c < cpos_z), self.none_from_cursor(co, tol)))
+            out += [Cl("selected-dimension-at-or-after-cursor", z3.And(cpos_z >= cur0, cpos_z < self.ndim, f["curContainer"] == cpos_z), prop=True),
+                    Cl("selected-reaches-tolerance-and-nothing-is-skipped", z3.And(*sel), prop=True)]
+        elif found is False:
+            none = [z3.Implies(cur0 <= c, self.none_from_cursor(so["refinementContainers"].items[c], tol)) for c in range(self.ndim)]
+            out += [Cl("no-candidate-left-in-any-dimension", z3.And(*none), prop=True),
+                    Cl("cursor-exhausted", f["curContainer"] == self.ndim)]
+        else:
+            out = [Cl("returns-triple", False, prop=True)]
+        return out
+
+
+CONTRACTS += [MetaGetNextObject(1), MetaGetNextObject(2), MetaGetNextObject(3)]
